@@ -62,9 +62,8 @@ IntBounds == [ gint8 |-> {"-128", "-1", "0", "127"}, guint8 |-> {"0", "255"}, gi
                guint64 |-> {"0", "9223372036854775808", "18446744073709551615"},
                gchar |-> {"-128", "65"}, guchar |-> {"255"}, gshort |-> {"-32768"}, gushort |-> {"65535"}, gint |-> {"-2147483648", "42"},
                guint |-> {"4294967295"}, glong |-> {"-9223372036854775808"}, gulong |-> {"18446744073709551615"},
-               gssize |-> {"-1"}, gsize |-> {"18446744073709551615"}, gintptr |-> {"-5"}, guintptr |-> {"5"} ]
-\* (a gunichar constant is left out: the compiler writes size 0 for it, its own validator refuses the file and it aborts --
-\*  the statement speaks about documents the compiler accepts; reported separately)
+               gssize |-> {"-1"}, gsize |-> {"18446744073709551615"}, gintptr |-> {"-5"}, guintptr |-> {"5"},
+               gunichar |-> {"0", "8364", "1114111"} ]
 ConstCases == UNION {{[t |-> n, text |-> x] : x \in IntBounds[n]} : n \in DOMAIN IntBounds}
               \cup {[t |-> "gboolean", text |-> x] : x \in {"true", "false", "TRUE", "0", "1"}}
               \cup {[t |-> "gdouble", text |-> x] : x \in {"0.0", "3.141592653589793", "-2.5e-300", "1e308", "1.7976931348623157e+308"}}
